@@ -444,6 +444,14 @@ Definition varlen_get (rl : list Z -> Z -> option Z) (d : list Z) (idx : Z) : op
   | None => None
   | Some p => fd_split_off d p
   end.
+(* executable shortcut used by [eval_op]: when every successful length read needs a byte at or after [p]
+   (so it fails once p >= len) and items are at least one byte long, the loop exits within len+1 iterations;
+   C01/Proofs.v [varlen_get_fast_eq] proves it equal to [varlen_get] under that condition *)
+Definition varlen_get_fast (rl : list Z -> Z -> option Z) (d : list Z) (idx : Z) : option (list Z) :=
+  match varlen_pos rl d (Z.to_nat (Z.min idx (blen d + 1))) 0 with
+  | None => None
+  | Some p => fd_split_off d p
+  end.
 (* VarLenArray::iter(): the list of item slices handed to T::read; fuel = number of `next` calls allowed *)
 Fixpoint varlen_iter (rl : list Z -> Z -> option Z) (fuel : nat) (d : list Z) : list (list Z) * bool :=
   match fuel with
@@ -557,8 +565,8 @@ Definition eval_op (op : Z) (d : list Z) (args : list Z) : list Z :=
   | 5, [p] => enc_opt idl (fd_split_off d p)
   | 6, [p] => enc_opt (fun ht => blen (fst ht) :: fst ht ++ snd ht) (fd_take_up_to d p)
   | 7, [off] => enc (elems 16) (read_ref_at 16 d off)
-  | 8, [o] => enc idl (resolve_offset o d)
-  | 9, [o] => match resolve_nullable o d with None => [2] | Some r => enc idl r end
+  | 8, [o; _] => enc idl (resolve_offset o d)
+  | 9, [o; _] => match resolve_nullable o d with None => [2] | Some r => enc idl r end
   | 10, tags => match fontref_new d with
                 | Ok f => 0 :: obs_font f tags
                 | Err e => err_code e
@@ -584,11 +592,11 @@ Definition eval_op (op : Z) (d : list Z) (args : list Z) : list Z :=
       | Panic => [3]
       end
   | 15, idxs =>   (* VarLenArray<PString> *)
-      flat_map (fun i => match varlen_get (read_len_at_default 1) d i with
+      flat_map (fun i => match varlen_get_fast (read_len_at_default 1) d i with
                          | None => [2] | Some s => enc idl (pstring_read s) end) idxs
       ++ enc_iter (fun s => enc (fun l => blen l :: l) (pstring_read s)) (varlen_iter (read_len_at_default 1) (S (length d)) d)
   | 16, idxs =>   (* VarLenArray<SegmentMaps> *)
-      flat_map (fun i => match varlen_get read_len_at_segmaps d i with
+      flat_map (fun i => match varlen_get_fast read_len_at_segmaps d i with
                          | None => [2] | Some s => enc idl (segmaps_read s) end) idxs
       ++ enc_iter (fun s => enc idl (segmaps_read s)) (varlen_iter read_len_at_segmaps (S (length d)) d)
   | 17, long :: idxs =>   (* ComputedArray<U16Or32> *)
